@@ -302,22 +302,23 @@ def portDeclP (ts : Toks) : Except String ((List Item) × Toks) := do
     let (names, ts) ← namesGo (ts.length + 1) ts [strip n]
     pure (names.map (fun x => Item.portDecl d vt rng x), ts)
 
-/-- `parse_cable_declaration`: the attributes go to the first name only -/
-def cableDeclGo : Nat → Toks → String → Attrs → List Item → Except String ((List Item) × Toks)
-  | 0, _, _, _, _ => .error "fuel"
-  | f + 1, ts, ty, attrs, acc => do
+/-- `parse_cable_declaration` (as repaired): the range and the attributes belong to every name of the list;
+    a name may still bring its own brackets -/
+def cableDeclGo : Nat → Toks → String → Attrs → Option (Int × Int) → List Item → Except String ((List Item) × Toks)
+  | 0, _, _, _, _, _ => .error "fuel"
+  | f + 1, ts, ty, attrs, prev, acc => do
     let t ← peek ts
     let (rng, ts) ← if t == "[" then do
         let ((l, r), ts) ← brackets ts
         match r with
         | some r => pure (some (l, r), ts)
         | none => throw "unsupported: single index in a cable declaration"
-      else pure (none, ts)
+      else pure (prev, ts)
     let (n, ts) ← next ts
     if !validIdent n then throw "assert: valid cable identifier" else
     let acc := acc ++ [Item.wireDecl ty rng (strip n) attrs]
     let (t, ts) ← next ts
-    if t == "," then cableDeclGo f ts ty [] acc
+    if t == "," then cableDeclGo f ts ty attrs rng acc
     else if t == ";" then pure (acc, ts)
     else throw "assert: ; to end cable declaration"
 
@@ -409,7 +410,7 @@ def bodyGo : Nat → Toks → Attrs → List Item → Except String ((List Item)
       bodyGo f ts [] (acc ++ its)
     else if t == "wire" || t == "reg" || t == "tri0" || t == "tri1" then do
       let (_, ts) ← next ts
-      let (its, ts) ← cableDeclGo (ts.length + 1) ts t pend []
+      let (its, ts) ← cableDeclGo (ts.length + 1) ts t pend none []
       bodyGo f ts [] (acc ++ its)
     else if t == "assign" then do
       let (_, ts) ← next ts
